@@ -206,6 +206,11 @@ def run(tier):
     for (base, base_events, members, tag) in groups:
         sb[base.cid] = (base.script() + "".join(m.script() for m in members[:3]), tag, delta.replay_files(base))
     validate_groups(ck, trace, owner, wd, groups)
+    # the update (scan, local copy, ranged rounds) with every allocation of zchunk's own code refused in turn: the safety half
+    # of the contract (valid => B's bytes on disk, confinement, source untouched) still holds; completion is not demanded
+    from .. import allocfault
+    atrace, aowner, ascripts = allocfault.delta_family(ck, tier, wd, rnd)
+    validate_segments(ck, "C05", atrace, aowner, wd, scripts_by=ascripts, module="Trace_Delta", cfg="Trace_Delta.cfg", start_ops=("begin",))
     if not ck.violations:
         good = [t for t, o in zip(trace, owner) if o == groups[2][0].cid][:12]
         bad = json.loads(json.dumps(good))
